@@ -20,7 +20,13 @@
    6. symmetry by construction of the mixed pairs, wrapper invariance (Rect/Triangle as Polygon,
       singleton Multi*, collection of one);
    7. finding K4: `Point × LineString` is zero exactly on the line string *only* where the
-      tolerance test has no false positive (`…_partial`, with a witness of the excluded class).
+      tolerance test has no false positive (`…_partial`, with a witness of the excluded class);
+   8. areal operands (OGC-valid polygons, Rect / Triangle through `to_polygon`): every `intersects`
+      short-circuit fires exactly when the closed point sets share a point; Point / Line / LineString /
+      Polygon × Polygon return the true minimum distance to the closed polygon as a point set (a point
+      outside a valid polygon is nearest to its boundary; the containment branches measure the right hole
+      rings); all 36 single-part pairs and, through the dispatch, all geometries with linear and valid
+      areal parts; `distance(a, b) = distance(b, a)` for all of them.
 -/
 import GeoProofs.Lemmas.C07Kernels
 import GeoProofs.Lemmas.C07Dispatch
@@ -29,6 +35,7 @@ import GeoProofs.Lemmas.C07PBase
 import GeoProofs.Lemmas.C07PParts
 import GeoProofs.Lemmas.C07PRings
 import GeoProofs.Lemmas.TRANDist
+import GeoProofs.Lemmas.C07XDisp
 
 namespace Geo.Proofs.C07
 open Geo Geo.Proofs.Kernel
@@ -232,7 +239,7 @@ theorem lsLs_zero_iff {as bs : List Pt} (h1 : segs as ≠ []) (h2 : segs bs ≠ 
 
 /-! areal kernels once `intersects` has not fired: the value is the true minimum distance (all pairs
 of points) to the rings that the branch measures. (`RingsPts rs y` = `y` lies on a ring of `rs`. That
-the distance to a disjoint polygon *is* the distance to these rings is spec adequacy S2.) -/
+the distance to a disjoint valid polygon *is* the distance to these rings is proved in section 8.) -/
 
 /-- **Line × Polygon**, not intersecting: the minimum over all points of the line and of all rings -/
 theorem linePoly_dist_is_ring_min {a b : Pt} {poly : Poly} (hi : polyLineIntersects poly a b = false)
@@ -263,8 +270,7 @@ example : lsPolyIntersects [⟨5, 5⟩, ⟨6, 8⟩, ⟨9, 9⟩] ⟨[⟨0, 0⟩, 
   decide +kernel
 
 /- full statement (without `hbb`; it follows from `hB` for a closed exterior ring — a point with
-non-zero winding number lies in the ring's bounding box — not proved here):
-   theorem lsPoly_dist_is_hole_min (hi) (hc) (hr) (hB) (hm) : IsMinDist (LsPts cs) (RingsPts poly.ints) m -/
+non-zero winding number lies in the ring's bounding box): proved in section 8, `lsPoly_dist_is_hole_min`. -/
 /-- **LineString × Polygon**, containment branch: the minimum over all points of the line string and of
 the hole rings -/
 theorem lsPoly_dist_is_hole_min_partial {cs : List Pt} {poly : Poly} (hi : lsPolyIntersects cs poly = false)
@@ -488,15 +494,13 @@ theorem lsLs_dist_symm (as bs : List Pt) : lsLs2 as bs = lsLs2 bs as := by
 
 /- **dist2_symm**, areal pairs: `nearest_neighbour_distance` is symmetric (`nn_symm`); the
 `Polygon: Intersects<Polygon>` short-circuit and the two containment branches of `Polygon × Polygon`
-are not written symmetrically — their agreement for exchanged operands rests on validity (S2) and is
+are not written symmetrically — their agreement for exchanged operands rests on validity and is also
 what the correspondence checks bit for bit on every case (`FAIL:asymmetric`).
    theorem polyPoly_symm (a b) : polyPoly2 a b = polyPoly2 b a       -- full statement: FALSE without
-   validity (`polyPoly_symm_invalid_witness`); for valid operands it needs "a hole of one polygon met
-   by the other ⇒ the exteriors/interiors meet" (Jordan-type reasoning about rings, S2), not proved.
-   The symmetry lemmas of C02 (`intersectsM_symm_partial`) cover every primitive pair *except*
-   Polygon × Polygon and Triangle × Triangle, precisely because of this asymmetric body.
+   validity (`polyPoly_symm_invalid_witness`). For OGC-valid operands it is `polyPoly_symm_valid`
+   (section 8: both orders are the minimum over the same pairs of points of the two closed polygons).
    Proved unconditionally: polygons without holes (`polyPoly_symm_noholes`), which covers all
-   Rect / Triangle pairs (`baseD_symm_rect_triangle`). -/
+   Rect / Triangle pairs (`baseD_symm_rect_triangle`). The conditional form below is kept. -/
 theorem polyPoly_symm_partial (a b : Poly) (hI : polyPolyIntersects a b = polyPolyIntersects b a)
     (hA : (!a.ints.isEmpty && ringContainsCoord a.ext (b.ext.headD ⟨0, 0⟩)) = false)
     (hB : (!b.ints.isEmpty && ringContainsCoord b.ext (a.ext.headD ⟨0, 0⟩)) = false)
@@ -685,6 +689,406 @@ theorem empty_member_zero_witness :
 /-- K14b: `nearest_neighbour_distance` panics on an empty line string against a non-empty one -/
 theorem empty_linestring_panic_witness : lsLs2 [] [⟨0, 0⟩, ⟨1, 0⟩] = .panic := by
   decide +kernel
+
+/-! ### 8. areal operands: OGC-valid polygons (`polyValid`), Rect / Triangle through `to_polygon`
+
+The point set of a polygon is `PolyPts q` = the specification (`locate`, C01/C02) does not put the point
+outside = the closed polygon. What is proved rests on three facts about winding numbers: they are constant
+along a segment that misses the ring (C02 `windingE_const`), a valid polygon's points are within the closed
+shell and not strictly inside a hole (cells `BE`, `IE` of the hole/shell clause and `II` of the hole-pair
+clause of `polyValid`, with the Jordan property `edgeJordan` of simple rings), and two disjoint closed
+rings are nested or mutually exterior (`nested_rings`, `exterior_rings`: first point of the rings on a
+segment to a far point). `coordinate_position = locate` for valid polygons is C02
+`coordPos_polygon_eq_locate_valid`. -/
+
+/-- **the closed polygon**: a point of a valid polygon is on a ring, or has non-zero winding number about
+the shell and zero winding number about every hole -/
+theorem closed_polygon_iff {q : Poly} (hv : polyValid q = true) (x : Pt) :
+    PolyPts q x ↔ RingsPts (q.ext :: q.ints) x ∨
+      (windingE (EPt.ofPt x) q.ext ≠ 0 ∧ ∀ h ∈ q.ints, windingE (EPt.ofPt x) h = 0) :=
+  PolyPts_iff (RingsOK_of_valid hv) x
+
+example : polyValid ⟨[⟨0, 0⟩, ⟨9, 0⟩, ⟨9, 9⟩, ⟨0, 9⟩, ⟨0, 0⟩], [[⟨2, 2⟩, ⟨2, 7⟩, ⟨7, 7⟩, ⟨7, 2⟩, ⟨2, 2⟩]]⟩ = true := by
+  decide +kernel
+
+/-- **a segment from a point outside a valid polygon to a point of the polygon meets a ring** -/
+theorem segment_into_polygon_crosses_ring {q : Poly} (hv : polyValid q = true) {x y : Pt}
+    (hx : ¬ PolyPts q x) (hy : PolyPts q y) : ∃ z, SegMem z x y ∧ RingsPts (q.ext :: q.ints) z :=
+  poly_cross (RingsOK_of_valid hv) hx hy
+
+example :
+    let q : Poly := ⟨[⟨0, 0⟩, ⟨9, 0⟩, ⟨9, 9⟩, ⟨0, 9⟩, ⟨0, 0⟩], [[⟨2, 2⟩, ⟨2, 7⟩, ⟨7, 7⟩, ⟨7, 2⟩, ⟨2, 2⟩]]⟩
+    polyValid q = true ∧ ¬ PolyPts q ⟨4, 4⟩ ∧ PolyPts q ⟨1, 8⟩ := by
+  refine ⟨by decide +kernel, ?_, ?_⟩ <;> unfold PolyPts <;> decide +kernel
+
+/-- `Polygon: Intersects<Coord>` of a valid polygon answers "the point is in the closed polygon" -/
+theorem polyCoord_intersects_iff {q : Poly} (hv : polyValid q = true) (p : Pt) :
+    polyCoordIntersects q p = true ↔ PolyPts q p :=
+  polyCoordIntersects_iff (PolyOk_of_valid hv) p
+
+example : polyCoordIntersects ⟨[⟨0, 0⟩, ⟨9, 0⟩, ⟨9, 9⟩, ⟨0, 9⟩, ⟨0, 0⟩], [[⟨2, 2⟩, ⟨2, 7⟩, ⟨7, 7⟩, ⟨7, 2⟩, ⟨2, 2⟩]]⟩ ⟨1, 8⟩ = true ↔
+    PolyPts ⟨[⟨0, 0⟩, ⟨9, 0⟩, ⟨9, 9⟩, ⟨0, 9⟩, ⟨0, 0⟩], [[⟨2, 2⟩, ⟨2, 7⟩, ⟨7, 7⟩, ⟨7, 2⟩, ⟨2, 2⟩]]⟩ ⟨1, 8⟩ :=
+  polyCoord_intersects_iff (by decide +kernel) _
+
+/-- **a point outside a valid polygon is nearest to its boundary**: the minimum distance to the rings
+is the minimum distance to the closed polygon as a point set -/
+theorem outside_point_nearest_to_boundary {q : Poly} (hv : polyValid q = true) {p : Pt} (hp : ¬ PolyPts q p)
+    {m : Rat} (h : IsMinDist (· = p) (RingsPts (q.ext :: q.ints)) m) : IsMinDist (· = p) (PolyPts q) m :=
+  outside_nearest_boundary (RingsOK_of_valid hv) (fun x hx => by rw [hx]; exact hp) h
+
+example (m : Rat) (h : IsMinDist (· = (⟨4, 5⟩ : Pt))
+      (RingsPts [[⟨0, 0⟩, ⟨9, 0⟩, ⟨9, 9⟩, ⟨0, 9⟩, ⟨0, 0⟩], [⟨2, 2⟩, ⟨2, 7⟩, ⟨7, 7⟩, ⟨7, 2⟩, ⟨2, 2⟩]]) m) :
+    IsMinDist (· = (⟨4, 5⟩ : Pt)) (PolyPts ⟨[⟨0, 0⟩, ⟨9, 0⟩, ⟨9, 9⟩, ⟨0, 9⟩, ⟨0, 0⟩], [[⟨2, 2⟩, ⟨2, 7⟩, ⟨7, 7⟩, ⟨7, 2⟩, ⟨2, 2⟩]]⟩) m :=
+  outside_point_nearest_to_boundary (q := ⟨[⟨0, 0⟩, ⟨9, 0⟩, ⟨9, 9⟩, ⟨0, 9⟩, ⟨0, 0⟩], [[⟨2, 2⟩, ⟨2, 7⟩, ⟨7, 7⟩, ⟨7, 2⟩, ⟨2, 2⟩]]⟩) (by decide +kernel) (by unfold PolyPts; decide +kernel) h
+
+/- full statements (without `hT`): false on the pinned tree, `ptPoly_hole_tolerance_witness` (K4 on a hole ring):
+   theorem ptPoly_dist_is_ring_min (hv) (hp) : ∃ m, ptPoly2 p q = .fin m ∧ IsMinDist (· = p) (RingsPts …) m
+   theorem ptPoly_zero_iff (hv) : ptPoly2 p q = .fin 0 ↔ PolyPts q p
+   theorem ptPoly_dist_is_min (hv) : ∃ m, ptPoly2 p q = .fin m ∧ IsMinDist (· = p) (PolyPts q) m -/
+/-- **Point × Polygon**, point outside the polygon: the value is the minimum distance to the rings
+(`HolesTolOk`: the tolerance test of `line_string_contains_point`, which the code applies to the hole rings
+only, has no false positive — finding K4) -/
+theorem ptPoly_dist_is_ring_min_partial {p : Pt} {q : Poly} (hv : polyValid q = true) (hT : HolesTolOk p q)
+    (hp : ¬ PolyPts q p) : ∃ m, ptPoly2 p q = .fin m ∧ IsMinDist (· = p) (RingsPts (q.ext :: q.ints)) m := by
+  have hok := RingsOK_of_valid hv
+  obtain ⟨m, hm⟩ := ptPoly2_finite p hok
+  have hi : polyCoordIntersects q p = false := by
+    cases h : polyCoordIntersects q p with
+    | false => rfl
+    | true => exact absurd ((polyCoord_intersects_iff hv p).mp h) hp
+  exact ⟨m, hm, ptPoly2_rings_IsMinDist hok hT hi hm⟩
+
+/-- **Point × Polygon is zero exactly for the points of the closed polygon** -/
+theorem ptPoly_zero_iff_partial {p : Pt} {q : Poly} (hv : polyValid q = true) (hT : HolesTolOk p q) :
+    ptPoly2 p q = .fin 0 ↔ PolyPts q p :=
+  ptPoly2_zero_iff (PolyOk_of_valid hv) hT
+
+/-- **Point × Polygon is the true minimum distance** between the point and the closed polygon -/
+theorem ptPoly_dist_is_min_partial {p : Pt} {q : Poly} (hv : polyValid q = true) (hT : HolesTolOk p q) :
+    ∃ m, ptPoly2 p q = .fin m ∧ IsMinDist (· = p) (PolyPts q) m :=
+  ptPoly2_IsMinDist (PolyOk_of_valid hv) hT
+
+example :
+    let q : Poly := ⟨[⟨0, 0⟩, ⟨9, 0⟩, ⟨9, 9⟩, ⟨0, 9⟩, ⟨0, 0⟩], [[⟨2, 2⟩, ⟨2, 7⟩, ⟨7, 7⟩, ⟨7, 2⟩, ⟨2, 2⟩]]⟩
+    polyValid q = true ∧ HolesTolOk ⟨4, 5⟩ q ∧ ¬ PolyPts q ⟨4, 5⟩ := by
+  refine ⟨by decide +kernel, ?_, by unfold PolyPts; decide +kernel⟩
+  intro r hr h
+  simp only [List.mem_singleton] at hr
+  subst hr
+  exact absurd h (by decide +kernel)
+
+/-- at full strength for a polygon without holes (the exterior ring is measured without the tolerance test) -/
+theorem ptPoly_dist_is_min_noholes {p : Pt} {q : Poly} (hv : polyValid q = true) (hn : q.ints = []) :
+    (ptPoly2 p q = .fin 0 ↔ PolyPts q p) ∧ ∃ m, ptPoly2 p q = .fin m ∧ IsMinDist (· = p) (PolyPts q) m := by
+  have hT : HolesTolOk p q := fun r hr => by rw [hn] at hr; cases hr
+  exact ⟨ptPoly_zero_iff_partial hv hT, ptPoly_dist_is_min_partial hv hT⟩
+
+example : polyValid ⟨[⟨0, 0⟩, ⟨4, 0⟩, ⟨0, 4⟩, ⟨0, 0⟩], []⟩ = true ∧
+    (⟨[⟨0, 0⟩, ⟨4, 0⟩, ⟨0, 4⟩, ⟨0, 0⟩], []⟩ : Poly).ints = [] := ⟨by decide +kernel, rfl⟩
+
+/-- the excluded class is inhabited (K4 seen through a hole ring): the point `(3500, −6500 + 2^-40)` lies
+strictly inside the triangular hole, just off its slanted edge; the tolerance test accepts it, the model
+(like the code) returns 0, and the point is not a point of the (valid) polygon -/
+theorem ptPoly_hole_tolerance_witness :
+    let p : Pt := ⟨3500, -6500 + 1 / 1099511627776⟩
+    let q : Poly := ⟨[⟨-10000, -10000⟩, ⟨10000, -10000⟩, ⟨10000, 10000⟩, ⟨-10000, 10000⟩, ⟨-10000, -10000⟩],
+      [[⟨-2000, -1000⟩, ⟨6000, -9000⟩, ⟨6000, -1000⟩, ⟨-2000, -1000⟩]]⟩
+    polyValid q = true ∧ ptPoly2 p q = .fin 0 ∧ ¬ PolyPts q p ∧ ¬ HolesTolOk p q := by
+  refine ⟨by decide +kernel, by decide +kernel, by unfold PolyPts; decide +kernel, ?_⟩
+  intro hT
+  have h := hT [⟨-2000, -1000⟩, ⟨6000, -9000⟩, ⟨6000, -1000⟩, ⟨-2000, -1000⟩] (by simp) (by decide +kernel)
+  obtain ⟨se, hse, h⟩ := h
+  simp only [segs, List.mem_cons, List.mem_nil_iff, or_false] at hse
+  rcases hse with rfl | rfl | rfl <;> revert h <;> decide +kernel
+
+/-- `Polygon: Intersects<Line>` of a valid polygon: the closed segment has a point in the closed polygon -/
+theorem polyLine_intersects_iff {q : Poly} (hv : polyValid q = true) (a b : Pt) :
+    polyLineIntersects q a b = true ↔ ∃ x, SegMem x a b ∧ PolyPts q x :=
+  polyLineIntersects_iff (PolyOk_of_valid hv) a b
+
+example : polyLineIntersects ⟨[⟨0, 0⟩, ⟨9, 0⟩, ⟨9, 9⟩, ⟨0, 9⟩, ⟨0, 0⟩], [[⟨2, 2⟩, ⟨2, 7⟩, ⟨7, 7⟩, ⟨7, 2⟩, ⟨2, 2⟩]]⟩ ⟨4, 4⟩ ⟨5, 5⟩ = true ↔
+    ∃ x, SegMem x ⟨4, 4⟩ ⟨5, 5⟩ ∧ PolyPts ⟨[⟨0, 0⟩, ⟨9, 0⟩, ⟨9, 9⟩, ⟨0, 9⟩, ⟨0, 0⟩], [[⟨2, 2⟩, ⟨2, 7⟩, ⟨7, 7⟩, ⟨7, 2⟩, ⟨2, 2⟩]]⟩ x :=
+  polyLine_intersects_iff (by decide +kernel) _ _
+
+/-- **Line × Polygon is the true minimum distance** between the closed segment and the closed polygon
+(zero exactly when they share a point) -/
+theorem linePoly_dist_is_min {a b : Pt} {q : Poly} (hv : polyValid q = true) :
+    (∃ m, linePoly2 a b q = .fin m ∧ IsMinDist (fun x => SegMem x a b) (PolyPts q) m) ∧
+    (linePoly2 a b q = .fin 0 ↔ ∃ x, SegMem x a b ∧ PolyPts q x) :=
+  ⟨linePoly2_poly_IsMinDist (PolyOk_of_valid hv), linePoly2_zero_iff_common (PolyOk_of_valid hv)⟩
+
+example : ∃ m, linePoly2 ⟨4, 4⟩ ⟨5, 5⟩ ⟨[⟨0, 0⟩, ⟨9, 0⟩, ⟨9, 9⟩, ⟨0, 9⟩, ⟨0, 0⟩], [[⟨2, 2⟩, ⟨2, 7⟩, ⟨7, 7⟩, ⟨7, 2⟩, ⟨2, 2⟩]]⟩ = .fin m ∧
+    IsMinDist (fun x => SegMem x ⟨4, 4⟩ ⟨5, 5⟩) (PolyPts ⟨[⟨0, 0⟩, ⟨9, 0⟩, ⟨9, 9⟩, ⟨0, 9⟩, ⟨0, 0⟩], [[⟨2, 2⟩, ⟨2, 7⟩, ⟨7, 7⟩, ⟨7, 2⟩, ⟨2, 2⟩]]⟩) m :=
+  (linePoly_dist_is_min (by decide +kernel)).1
+
+/-- `LineString: Intersects<Polygon>` of a valid polygon (bounding-box rejection included): the line
+string has a point in the closed polygon -/
+theorem lsPoly_intersects_iff {q : Poly} (hv : polyValid q = true) (cs : List Pt) :
+    lsPolyIntersects cs q = true ↔ ∃ x, LsPts cs x ∧ PolyPts q x :=
+  lsPolyIntersects_iff (PolyOk_of_valid hv) cs
+
+example : lsPolyIntersects [⟨4, 4⟩, ⟨5, 5⟩, ⟨5, 3⟩] ⟨[⟨0, 0⟩, ⟨9, 0⟩, ⟨9, 9⟩, ⟨0, 9⟩, ⟨0, 0⟩], [[⟨2, 2⟩, ⟨2, 7⟩, ⟨7, 7⟩, ⟨7, 2⟩, ⟨2, 2⟩]]⟩ = true ↔
+    ∃ x, LsPts [⟨4, 4⟩, ⟨5, 5⟩, ⟨5, 3⟩] x ∧ PolyPts ⟨[⟨0, 0⟩, ⟨9, 0⟩, ⟨9, 9⟩, ⟨0, 9⟩, ⟨0, 0⟩], [[⟨2, 2⟩, ⟨2, 7⟩, ⟨7, 7⟩, ⟨7, 2⟩, ⟨2, 2⟩]]⟩ x :=
+  lsPoly_intersects_iff (by decide +kernel) _
+
+/-- **LineString × Polygon is the true minimum distance** between the line string and the closed
+polygon: zero exactly when they share a point; otherwise the exterior ring, or — line string inside the
+exterior ring of a polygon with holes — the hole rings carry the minimum -/
+theorem lsPoly_dist_is_min {cs : List Pt} {q : Poly} (hv : polyValid q = true) (hc : segs cs ≠ []) :
+    (∃ m, lsPoly2 cs q = .fin m ∧ IsMinDist (LsPts cs) (PolyPts q) m) ∧
+    (lsPoly2 cs q = .fin 0 ↔ ∃ x, LsPts cs x ∧ PolyPts q x) :=
+  ⟨lsPoly2_poly_IsMinDist (PolyOk_of_valid hv) hc, lsPoly2_zero_iff_common (PolyOk_of_valid hv) hc⟩
+
+example : polyValid ⟨[⟨0, 0⟩, ⟨9, 0⟩, ⟨9, 9⟩, ⟨0, 9⟩, ⟨0, 0⟩], [[⟨2, 2⟩, ⟨2, 7⟩, ⟨7, 7⟩, ⟨7, 2⟩, ⟨2, 2⟩]]⟩ = true ∧
+    segs [(⟨4, 4⟩ : Pt), ⟨5, 5⟩, ⟨5, 3⟩] ≠ [] := ⟨by decide +kernel, by simp [segs]⟩
+
+/-- **LineString × Polygon, containment branch** — the full statement of `lsPoly_dist_is_hole_min_partial`:
+the bounding-box hypothesis follows from the containment test for a closed exterior ring (a point with
+non-zero winding number lies in the ring's bounding box, `winding_in_bbox`) -/
+theorem lsPoly_dist_is_hole_min {cs : List Pt} {poly : Poly} (hi : lsPolyIntersects cs poly = false)
+    (hc : segs cs ≠ []) (hr : RingsOk poly.ints)
+    (hcl : poly.ext.head? = poly.ext.getLast? ∧ 2 ≤ poly.ext.length)
+    (hB : (!poly.ints.isEmpty && ringContainsCoord poly.ext (cs.headD ⟨0, 0⟩)) = true)
+    {m : Rat} (hm : lsPoly2 cs poly = .fin m) : IsMinDist (LsPts cs) (RingsPts poly.ints) m := by
+  apply lsPoly_dist_is_hole_min_partial hi hc hr _ hB hm
+  simp only [Bool.and_eq_true] at hB
+  have hin : ringPos (cs.headD ⟨0, 0⟩) poly.ext = .inside := by
+    have := hB.2; unfold ringContainsCoord at this; simpa using this
+  rw [Geo.Proofs.Loc.ringPos_eq_ringLoc _ _ hcl, Geo.Proofs.Loc.ringLoc_inside_iff] at hin
+  exact not_bboxDisjoint_of_common (x := cs.headD ⟨0, 0⟩) (LsPts_in_bbox (LsPts_head hc))
+    (winding_in_bbox hcl.1 hin.2)
+
+example :
+    let poly : Poly := ⟨[⟨0, 0⟩, ⟨9, 0⟩, ⟨9, 9⟩, ⟨0, 9⟩, ⟨0, 0⟩], [[⟨2, 2⟩, ⟨2, 7⟩, ⟨7, 7⟩, ⟨7, 2⟩, ⟨2, 2⟩]]⟩
+    let cs : List Pt := [⟨4, 4⟩, ⟨5, 5⟩]
+    lsPolyIntersects cs poly = false ∧ (poly.ext.head? = poly.ext.getLast? ∧ 2 ≤ poly.ext.length) ∧
+    (!poly.ints.isEmpty && ringContainsCoord poly.ext (cs.headD ⟨0, 0⟩)) = true := by
+  decide +kernel
+
+/-- **`Polygon: Intersects<Polygon>` of two valid polygons: the closed polygons share a point.** (The body
+looks at `b`'s rings against `a` and only at `a`'s exterior ring against `b`; if neither exterior ring has a
+point in the other polygon the exterior rings are disjoint closed curves, nested in a hole or mutually
+exterior, and the closed polygons are disjoint.) -/
+theorem polyPoly_intersects_iff {a b : Poly} (hva : polyValid a = true) (hvb : polyValid b = true) :
+    polyPolyIntersects a b = true ↔ ∃ x, PolyPts a x ∧ PolyPts b x :=
+  polyPolyIntersects_iff (PolyOk_of_valid hva) (PolyOk_of_valid hvb)
+
+example : polyPolyIntersects ⟨[⟨0, 0⟩, ⟨9, 0⟩, ⟨9, 9⟩, ⟨0, 9⟩, ⟨0, 0⟩], [[⟨2, 2⟩, ⟨2, 7⟩, ⟨7, 7⟩, ⟨7, 2⟩, ⟨2, 2⟩]]⟩ ⟨[⟨3, 3⟩, ⟨6, 3⟩, ⟨6, 6⟩, ⟨3, 6⟩, ⟨3, 3⟩], []⟩ = true ↔
+    ∃ x, PolyPts ⟨[⟨0, 0⟩, ⟨9, 0⟩, ⟨9, 9⟩, ⟨0, 9⟩, ⟨0, 0⟩], [[⟨2, 2⟩, ⟨2, 7⟩, ⟨7, 7⟩, ⟨7, 2⟩, ⟨2, 2⟩]]⟩ x ∧ PolyPts ⟨[⟨3, 3⟩, ⟨6, 3⟩, ⟨6, 6⟩, ⟨3, 6⟩, ⟨3, 3⟩], []⟩ x :=
+  polyPoly_intersects_iff (by decide +kernel) (by decide +kernel)
+
+/-- **Polygon × Polygon is the true minimum distance** between the two closed polygons (zero exactly
+when they share a point; otherwise in each of the three branches — `b` in a hole of `a`, `a` in a hole of
+`b`, exterior to exterior — the rings that are measured carry the minimum over all pairs of points) -/
+theorem polyPoly_dist_is_min {a b : Poly} (hva : polyValid a = true) (hvb : polyValid b = true) :
+    (∃ m, polyPoly2 a b = .fin m ∧ IsMinDist (PolyPts a) (PolyPts b) m) ∧
+    (polyPoly2 a b = .fin 0 ↔ ∃ x, PolyPts a x ∧ PolyPts b x) :=
+  ⟨polyPoly2_poly_IsMinDist (PolyOk_of_valid hva) (PolyOk_of_valid hvb),
+   polyPoly2_zero_iff_common (PolyOk_of_valid hva) (PolyOk_of_valid hvb)⟩
+
+example : ∃ m, polyPoly2 ⟨[⟨0, 0⟩, ⟨9, 0⟩, ⟨9, 9⟩, ⟨0, 9⟩, ⟨0, 0⟩], [[⟨2, 2⟩, ⟨2, 7⟩, ⟨7, 7⟩, ⟨7, 2⟩, ⟨2, 2⟩]]⟩ ⟨[⟨3, 3⟩, ⟨6, 3⟩, ⟨6, 6⟩, ⟨3, 6⟩, ⟨3, 3⟩], []⟩ = .fin m ∧
+    IsMinDist (PolyPts ⟨[⟨0, 0⟩, ⟨9, 0⟩, ⟨9, 9⟩, ⟨0, 9⟩, ⟨0, 0⟩], [[⟨2, 2⟩, ⟨2, 7⟩, ⟨7, 7⟩, ⟨7, 2⟩, ⟨2, 2⟩]]⟩) (PolyPts ⟨[⟨3, 3⟩, ⟨6, 3⟩, ⟨6, 6⟩, ⟨3, 6⟩, ⟨3, 3⟩], []⟩) m :=
+  (polyPoly_dist_is_min (by decide +kernel) (by decide +kernel)).1
+
+/-- **dist2_symm, Polygon × Polygon for valid polygons, with or without holes** (the full statement
+behind `polyPoly_symm_partial`: both orders return the minimum over the same pairs of points) -/
+theorem polyPoly_symm_valid {a b : Poly} (hva : polyValid a = true) (hvb : polyValid b = true) :
+    polyPoly2 a b = polyPoly2 b a :=
+  polyPoly2_symm_valid (PolyOk_of_valid hva) (PolyOk_of_valid hvb)
+
+example :
+    polyValid ⟨[⟨0, 0⟩, ⟨9, 0⟩, ⟨9, 9⟩, ⟨0, 9⟩, ⟨0, 0⟩], [[⟨2, 2⟩, ⟨2, 7⟩, ⟨7, 7⟩, ⟨7, 2⟩, ⟨2, 2⟩]]⟩ = true ∧
+    polyValid ⟨[⟨3, 3⟩, ⟨6, 3⟩, ⟨6, 6⟩, ⟨3, 6⟩, ⟨3, 3⟩], [[⟨4, 4⟩, ⟨4, 5⟩, ⟨5, 5⟩, ⟨5, 4⟩, ⟨4, 4⟩]]⟩ = true := by
+  decide +kernel
+
+/-- **Rect operand = its polygon form**: the point set of `Rect::to_polygon()` is the closed rectangle -/
+theorem rect_pts_iff (mn mx x : Pt) (hx : mn.x < mx.x) (hy : mn.y < mx.y) :
+    PolyPts (dRectPoly mn mx) x ↔ rectCoord mn mx x = true := by
+  have h1 : locate (.polygon (dRectPoly mn mx)) x = locate (.rect mn mx) x := rfl
+  unfold PolyPts
+  rw [h1, ← Geo.Proofs.Loc.coordPos_rect_eq_locate mn mx x hx hy, Geo.Proofs.Loc.rectCoord_eq_pos]
+  simp
+
+example : PolyPts (dRectPoly ⟨0, 0⟩ ⟨2, 3⟩) ⟨2, 1⟩ := (rect_pts_iff _ _ _ (by norm_num) (by norm_num)).mpr (by decide +kernel)
+
+/-- **Triangle operand = its polygon form**: the point set of `Triangle::to_polygon()` is what the
+specification locates in the triangle -/
+theorem triangle_pts_iff (a b c x : Pt) :
+    PolyPts (dTriPoly a b c) x ↔ locate (.triangle a b c) x ≠ .outside := by
+  have h1 : dTriPoly a b c = ⟨[a, b, c, a], []⟩ := by
+    simp [dTriPoly, SM.triangleToPolygon, SM.close, SM.isClosed]
+  unfold PolyPts
+  rw [h1]
+  exact Iff.rfl
+
+/- full statement (without `ht`): false on the pinned tree for Point × LineString and Point × Polygon-with-holes
+   (`tolerance_false_positive_witness`, `ptPoly_hole_tolerance_witness`) -/
+/-- **true minimum, all 36 pairs of single-part operands** (`partOk`: LineStrings with a segment, Polygons
+OGC-valid; Rect / Triangle are their polygon forms; `basePts`: the operand's point set, closed polygons for
+areal operands): the value is the minimum of `|x − y|²` over all pairs of points, and is zero exactly when
+the operands share a point -/
+theorem baseD_is_true_min_partial {x y : Base} (hx : partOk x) (hy : partOk y) (ht : tolOkX x y) :
+    (∃ m, baseD x y = .fin m ∧ IsMinDist (basePts x) (basePts y) m) ∧
+    (baseD x y = .fin 0 ↔ ∃ z, basePts x z ∧ basePts y z) :=
+  ⟨baseD_IsMinDist hx hy ht, baseD_zero_iff_common hx hy ht⟩
+
+example : partOk (.tr ⟨0, 0⟩ ⟨4, 0⟩ ⟨0, 4⟩) ∧
+    partOk (.pg ⟨[⟨5, 5⟩, ⟨9, 5⟩, ⟨9, 9⟩, ⟨5, 9⟩, ⟨5, 5⟩], [[⟨6, 6⟩, ⟨6, 8⟩, ⟨8, 8⟩, ⟨8, 6⟩, ⟨6, 6⟩]]⟩) ∧
+    tolOkX (.tr ⟨0, 0⟩ ⟨4, 0⟩ ⟨0, 4⟩)
+      (.pg ⟨[⟨5, 5⟩, ⟨9, 5⟩, ⟨9, 9⟩, ⟨5, 9⟩, ⟨5, 5⟩], [[⟨6, 6⟩, ⟨6, 8⟩, ⟨8, 8⟩, ⟨8, 6⟩, ⟨6, 6⟩]]⟩) :=
+  ⟨trivial, by show polyValid _ = true; decide +kernel, trivial⟩
+
+/-- no pair on which finding K4 can strike: no Point × LineString and no Point × Polygon-with-holes -/
+def noK4 : Base → Base → Prop
+  | .pt _, .ls _ => False
+  | .ls _, .pt _ => False
+  | .pt _, .pg q => q.ints = []
+  | .pg q, .pt _ => q.ints = []
+  | _, _ => True
+
+theorem tolOkX_of_noK4 {x y : Base} (h : noK4 x y) : tolOkX x y := by
+  cases x <;> cases y <;> first
+    | exact h.elim
+    | exact trivial
+    | (intro r hr; rw [show _ = [] from h] at hr; cases hr)
+
+example : noK4 (.pt ⟨1, 1⟩) (.pg ⟨[⟨5, 5⟩, ⟨9, 5⟩, ⟨9, 9⟩, ⟨5, 5⟩], []⟩) := rfl
+
+/-- the same at full strength for the pairs without a tolerance test -/
+theorem baseD_is_true_min {x y : Base} (hx : partOk x) (hy : partOk y) (hk : noK4 x y) :
+    (∃ m, baseD x y = .fin m ∧ IsMinDist (basePts x) (basePts y) m) ∧
+    (baseD x y = .fin 0 ↔ ∃ z, basePts x z ∧ basePts y z) :=
+  baseD_is_true_min_partial hx hy (tolOkX_of_noK4 hk)
+
+example : partOk (.ls [⟨0, 0⟩, ⟨1, 3⟩]) ∧ partOk (.rc ⟨2, 2⟩ ⟨4, 5⟩) ∧ noK4 (.ls [⟨0, 0⟩, ⟨1, 3⟩]) (.rc ⟨2, 2⟩ ⟨4, 5⟩) :=
+  ⟨by simp [partOk, segs], trivial, trivial⟩
+
+/-- **`distance(a, b)` is the true minimum distance of two geometries with linear and areal parts**
+(extends `distG_is_true_min_partial` from `linOk` parts to `partOk` parts: Points, Lines, LineStrings with a
+segment, OGC-valid Polygons, Rects, Triangles, their Multi* and arbitrarily nested collections):
+`GeomPtsX g x` = `x` is a point of a part of `g`; the result is finite, bounds `|x − y|²` from below for
+all points `x` of `a`, `y` of `b`, and is attained.
+(`_partial`: `tolOkX` excludes finding K4 on the Point × LineString and Point × Polygon-with-holes pairs; the
+member-against-member validity of a MultiPolygon is not needed.) -/
+theorem distG_is_true_min_areal_partial {a b : Geom} (ha : ∀ p ∈ parts a, partOk p) (hb : ∀ q ∈ parts b, partOk q)
+    (ht : ∀ p ∈ parts a, ∀ q ∈ parts b, tolOkX p q) (na : parts a ≠ []) (nb : parts b ≠ []) :
+    ∃ m, distG a b = .fin m ∧ IsMinDist (GeomPtsX a) (GeomPtsX b) m :=
+  distG_IsMinDist_gen ha hb ht na nb
+
+example :
+    let a : Geom := .polygon ⟨[⟨0, 0⟩, ⟨9, 0⟩, ⟨9, 9⟩, ⟨0, 9⟩, ⟨0, 0⟩], [[⟨2, 2⟩, ⟨2, 7⟩, ⟨7, 7⟩, ⟨7, 2⟩, ⟨2, 2⟩]]⟩
+    let b : Geom := .multiPoint [⟨4, 5⟩, ⟨20, 20⟩]
+    (∀ p ∈ parts a, partOk p) ∧ (∀ q ∈ parts b, partOk q) ∧ (∀ p ∈ parts a, ∀ q ∈ parts b, tolOkX p q) ∧
+    parts a ≠ [] ∧ parts b ≠ [] := by
+  refine ⟨?_, ?_, ?_, by simp [parts], by simp [parts]⟩
+  · intro p hp
+    simp only [parts, List.mem_singleton] at hp
+    subst hp; show polyValid _ = true; decide +kernel
+  · intro q hq
+    simp only [parts, List.map_cons, List.map_nil, List.mem_cons, List.mem_nil_iff, or_false] at hq
+    rcases hq with rfl | rfl <;> trivial
+  · intro p hp q hq
+    simp only [parts, List.mem_singleton] at hp
+    simp only [parts, List.map_cons, List.map_nil, List.mem_cons, List.mem_nil_iff, or_false] at hq
+    subst hp
+    rcases hq with rfl | rfl <;>
+      (intro r hr h
+       simp only [List.mem_singleton] at hr
+       subst hr
+       exact absurd h (by decide +kernel))
+
+/-- …at full strength when no pair of parts carries a tolerance test -/
+theorem distG_is_true_min_areal {a b : Geom} (ha : ∀ p ∈ parts a, partOk p) (hb : ∀ q ∈ parts b, partOk q)
+    (hk : ∀ p ∈ parts a, ∀ q ∈ parts b, noK4 p q) (na : parts a ≠ []) (nb : parts b ≠ []) :
+    ∃ m, distG a b = .fin m ∧ IsMinDist (GeomPtsX a) (GeomPtsX b) m :=
+  distG_is_true_min_areal_partial ha hb (fun p hp q hq => tolOkX_of_noK4 (hk p hp q hq)) na nb
+
+example :
+    let a : Geom := .multiPolygon [⟨[⟨0, 0⟩, ⟨4, 0⟩, ⟨0, 4⟩, ⟨0, 0⟩], []⟩,
+      ⟨[⟨5, 5⟩, ⟨9, 5⟩, ⟨9, 9⟩, ⟨5, 9⟩, ⟨5, 5⟩], [[⟨6, 6⟩, ⟨6, 8⟩, ⟨8, 8⟩, ⟨8, 6⟩, ⟨6, 6⟩]]⟩]
+    let b : Geom := .collection [.lineString [⟨7, 7⟩, ⟨7, 15 / 2⟩], .rect ⟨10, 0⟩ ⟨12, 3⟩]
+    (∀ p ∈ parts a, partOk p) ∧ (∀ q ∈ parts b, partOk q) ∧ (∀ p ∈ parts a, ∀ q ∈ parts b, noK4 p q) ∧
+    parts a ≠ [] ∧ parts b ≠ [] := by
+  refine ⟨?_, ?_, ?_, by simp [parts], by simp [parts, partsList]⟩
+  · intro p hp
+    simp only [parts, List.map_cons, List.map_nil, List.mem_cons, List.mem_nil_iff, or_false] at hp
+    rcases hp with rfl | rfl <;> (show polyValid _ = true) <;> decide +kernel
+  · intro q hq
+    simp only [parts, partsList, List.cons_append, List.nil_append, List.append_nil, List.mem_cons,
+      List.mem_nil_iff, or_false] at hq
+    rcases hq with rfl | rfl
+    · simp [partOk, segs]
+    · trivial
+  · intro p hp q hq
+    simp only [parts, List.map_cons, List.map_nil, List.mem_cons, List.mem_nil_iff, or_false] at hp
+    simp only [parts, partsList, List.cons_append, List.nil_append, List.append_nil, List.mem_cons,
+      List.mem_nil_iff, or_false] at hq
+    rcases hp with rfl | rfl <;> rcases hq with rfl | rfl <;> trivial
+
+theorem baseOk_of_partOk {x : Base} (h : partOk x) : baseOk x := by
+  cases x with
+  | ls cs => exact h
+  | pg q => exact ⟨RingsOK_ext (RingsOK_of_valid h), RingsOK_ints (RingsOK_of_valid h)⟩
+  | _ => trivial
+
+example : partOk (.pg ⟨[⟨0, 0⟩, ⟨4, 0⟩, ⟨0, 4⟩, ⟨0, 0⟩], []⟩) := by show polyValid _ = true; decide +kernel
+
+/-- **dist2_symm, every pair of single-part operands in the domain** (all 36; the only pair whose two
+orders run different code is Polygon × Polygon, `polyPoly_symm_valid`) -/
+theorem baseD_symm_valid {x y : Base} (hx : partOk x) (hy : partOk y) : baseD x y = baseD y x :=
+  baseD_symm_ok hx hy
+
+example : baseD (.pg ⟨[⟨0, 0⟩, ⟨9, 0⟩, ⟨9, 9⟩, ⟨0, 9⟩, ⟨0, 0⟩], [[⟨2, 2⟩, ⟨2, 7⟩, ⟨7, 7⟩, ⟨7, 2⟩, ⟨2, 2⟩]]⟩) (.pg ⟨[⟨3, 3⟩, ⟨6, 3⟩, ⟨6, 6⟩, ⟨3, 6⟩, ⟨3, 3⟩], []⟩) =
+    baseD (.pg ⟨[⟨3, 3⟩, ⟨6, 3⟩, ⟨6, 6⟩, ⟨3, 6⟩, ⟨3, 3⟩], []⟩) (.pg ⟨[⟨0, 0⟩, ⟨9, 0⟩, ⟨9, 9⟩, ⟨0, 9⟩, ⟨0, 0⟩], [[⟨2, 2⟩, ⟨2, 7⟩, ⟨7, 7⟩, ⟨7, 2⟩, ⟨2, 2⟩]]⟩) :=
+  baseD_symm_valid (by show polyValid _ = true; decide +kernel) (by show polyValid _ = true; decide +kernel)
+
+/-- **dist2_symm, `distance(a, b) = distance(b, a)` for all geometries with parts in the domain**
+(Multi*, nested collections: the two dispatches fold `min` over the same part pairs, in a different order
+and with the operands of some calls exchanged) -/
+theorem distG_symm_valid {a b : Geom} (ha : ∀ p ∈ parts a, partOk p) (hb : ∀ q ∈ parts b, partOk q) :
+    distG a b = distG b a := by
+  obtain ⟨c1, _⟩ := calls_cover _ a b (le_refl _)
+  obtain ⟨d1, _⟩ := calls_cover _ b a (le_refl _)
+  obtain ⟨_, c2⟩ := calls_cover _ a b (le_refl _)
+  obtain ⟨_, d2⟩ := calls_cover _ b a (le_refl _)
+  unfold distG
+  apply foldMin_eq_of_values
+  · intro xy hxy
+    rcases c1 xy hxy with ⟨h1, h2⟩ | ⟨h1, h2⟩
+    · exact baseD_nonneg (baseOk_of_partOk (ha _ h1)) (baseOk_of_partOk (hb _ h2))
+    · exact baseD_nonneg (baseOk_of_partOk (hb _ h1)) (baseOk_of_partOk (ha _ h2))
+  · intro xy hxy
+    rcases d1 xy hxy with ⟨h1, h2⟩ | ⟨h1, h2⟩
+    · exact baseD_nonneg (baseOk_of_partOk (hb _ h1)) (baseOk_of_partOk (ha _ h2))
+    · exact baseD_nonneg (baseOk_of_partOk (ha _ h1)) (baseOk_of_partOk (hb _ h2))
+  · intro xy hxy
+    rcases c1 xy hxy with ⟨h1, h2⟩ | ⟨h1, h2⟩
+    · rcases d2 xy.2 h2 xy.1 h1 with h | h
+      · exact ⟨_, h, baseD_symm_ok (hb _ h2) (ha _ h1)⟩
+      · exact ⟨_, h, rfl⟩
+    · rcases d2 xy.1 h1 xy.2 h2 with h | h
+      · exact ⟨_, h, rfl⟩
+      · exact ⟨_, h, baseD_symm_ok (ha _ h2) (hb _ h1)⟩
+  · intro xy hxy
+    rcases d1 xy hxy with ⟨h1, h2⟩ | ⟨h1, h2⟩
+    · rcases c2 xy.2 h2 xy.1 h1 with h | h
+      · exact ⟨_, h, baseD_symm_ok (ha _ h2) (hb _ h1)⟩
+      · exact ⟨_, h, rfl⟩
+    · rcases c2 xy.1 h1 xy.2 h2 with h | h
+      · exact ⟨_, h, rfl⟩
+      · exact ⟨_, h, baseD_symm_ok (hb _ h2) (ha _ h1)⟩
+
+example :
+    let a : Geom := .multiPolygon [⟨[⟨0, 0⟩, ⟨9, 0⟩, ⟨9, 9⟩, ⟨0, 9⟩, ⟨0, 0⟩], [[⟨2, 2⟩, ⟨2, 7⟩, ⟨7, 7⟩, ⟨7, 2⟩, ⟨2, 2⟩]]⟩]
+    let b : Geom := .polygon ⟨[⟨3, 3⟩, ⟨6, 3⟩, ⟨6, 6⟩, ⟨3, 6⟩, ⟨3, 3⟩], [[⟨4, 4⟩, ⟨4, 5⟩, ⟨5, 5⟩, ⟨5, 4⟩, ⟨4, 4⟩]]⟩
+    (∀ p ∈ parts a, partOk p) ∧ (∀ q ∈ parts b, partOk q) := by
+  constructor
+  · intro p hp
+    simp only [parts, List.map_cons, List.map_nil, List.mem_singleton] at hp
+    subst hp; show polyValid _ = true; decide +kernel
+  · intro q hq
+    simp only [parts, List.mem_singleton] at hq
+    subst hq; show polyValid _ = true; decide +kernel
 
 /-! ### TRAN: the point–segment kernel is the term read off geo-types/src/private_utils.rs (sqrt-free form) -/
 
